@@ -132,7 +132,7 @@ package types
 //@   define MI = bcd.val2(b[5])
 //@   define S = bcd.val2(b[6])
 //@   define TAILZERO = b[1] == 0 && b[2] == 0 && b[3] == 0 && b[4] == 0 && b[5] == 0 && b[6] == 0
-//@   define NODATE = (b[0] == 0 || b[0] == 32) && TAILZERO
+//@   define NODATE = ((b[0] == 0 || b[0] == 32) && TAILZERO) || (b[0] == 0 && b[1] == 1 && b[2] == 1 && b[3] == 1 && b[4] == 0 && b[5] == 0 && b[6] == 0)
 //@   define VALID = time.validDate(Y, M, D) && time.validClock(H, MI, S)
 //@   define R = unbox("*types.DateTime", res)
 //@   ensures nodate:  NODATE ==> err == nil && (d == nil ==> res == nil) && (d != nil ==> dyntype(res) == typeid("*types.DateTime") && R.abs == 0 && R.ns == 0)
@@ -297,3 +297,77 @@ package types
 //@ func abbreviation
 //@   params d
 //@   requires weekday: 0 <= d && d <= 6
+
+// ---- C13: dates constructed or parsed keep their civil value in every time zone ---------------
+// time.dayExists(n, Local): some instant of the process-local zone has calendar day n.
+
+//@ func ToDate
+//@   params year, month, day
+//@   returns res
+//@   requires range: 0 <= year && year <= 9999
+//@   ensures civil: time.validDate(year, month, day) && time.dayExists(time.dayNo(year, month, day), time.Local) ==>
+//@                    time.year(res.abs, res.loc) == year && time.month(res.abs, res.loc) == month && time.day(res.abs, res.loc) == day
+
+// a string "YYYY-MM-DD" of ten characters with decimal digits in the date positions
+//@ func ParseDate
+//@   params s
+//@   returns (res, err)
+//@   define SHAPE = len(s) == 10 && bcd.isdigit(s[0]) && bcd.isdigit(s[1]) && bcd.isdigit(s[2]) && bcd.isdigit(s[3]) && s[4] == 45 &&
+//@                  bcd.isdigit(s[5]) && bcd.isdigit(s[6]) && s[7] == 45 && bcd.isdigit(s[8]) && bcd.isdigit(s[9])
+//@   define Y = 1000 * (s[0] - 48) + 100 * (s[1] - 48) + 10 * (s[2] - 48) + (s[3] - 48)
+//@   define M = 10 * (s[5] - 48) + (s[6] - 48)
+//@   define D = 10 * (s[8] - 48) + (s[9] - 48)
+//@   ensures reject: len(s) <= 10 && !(SHAPE && time.validDate(Y, M, D)) ==> err != nil
+//@   ensures accept: SHAPE && time.validDate(Y, M, D) ==> err == nil
+//@   ensures civil:  SHAPE && time.validDate(Y, M, D) && time.dayExists(time.dayNo(Y, M, D), time.Local) ==>
+//@                     time.year(res.abs, res.loc) == Y && time.month(res.abs, res.loc) == M && time.day(res.abs, res.loc) == D
+
+// ---- per-type wire round trips (C05, C13): proved from the codec contracts above only -----------
+
+//@ func lemmaRoundTripDate
+//@   params d
+//@   returns (res, ok)
+//@   define Y = time.year(d.abs, d.loc)
+//@   define M = time.month(d.abs, d.loc)
+//@   define D = time.day(d.abs, d.loc)
+//@   define ZERO = d.abs == 0 && d.ns == 0
+//@   define INDOMAIN = ZERO || (1 <= Y && Y <= 9999 && !(Y == 1 && M == 1 && D == 1))
+//@   ensures total: INDOMAIN ==> ok
+//@   ensures zero:  ZERO ==> ok && res.abs == 0 && res.ns == 0
+//@   ensures civil: !ZERO && INDOMAIN && time.dayExists(time.dayNo(Y, M, D), time.Local) ==>
+//@                    ok && time.year(res.abs, res.loc) == Y && time.month(res.abs, res.loc) == M && time.day(res.abs, res.loc) == D
+
+//@ func lemmaRoundTripDateTime
+//@   params d
+//@   returns (res, ok)
+//@   define Y = time.year(d.abs, d.loc)
+//@   define ZERO = d.abs == 0 && d.ns == 0
+//@   define C = time.civil(Y, time.month(d.abs, d.loc), time.day(d.abs, d.loc), time.hour(d.abs, d.loc), time.minute(d.abs, d.loc), time.second(d.abs, d.loc))
+//@   ensures total: 1 <= Y && Y <= 9999 ==> ok
+//@   define FIRST = Y == 1 && time.month(d.abs, d.loc) == 1 && time.day(d.abs, d.loc) == 1 && time.hour(d.abs, d.loc) == 0 && time.minute(d.abs, d.loc) == 0 && time.second(d.abs, d.loc) == 0
+//@   ensures zero:  ZERO && d.loc == time.UTC ==> ok && res.abs == 0 && res.ns == 0
+//@   ensures civil: !ZERO && 1 <= Y && Y <= 9999 && !FIRST && time.exists(C, time.Local) ==> ok &&
+//@                    time.year(res.abs, res.loc) == Y && time.month(res.abs, res.loc) == time.month(d.abs, d.loc) && time.day(res.abs, res.loc) == time.day(d.abs, d.loc) &&
+//@                    time.hour(res.abs, res.loc) == time.hour(d.abs, d.loc) && time.minute(res.abs, res.loc) == time.minute(d.abs, d.loc) && time.second(res.abs, res.loc) == time.second(d.abs, d.loc)
+
+//@ func lemmaRoundTripHHmm
+//@   params h
+//@   returns (res, ok)
+//@   define INDOMAIN = 0 <= h.hours && h.hours <= 24 && 0 <= h.minutes && h.minutes <= 59 && !(h.hours == 24 && h.minutes != 0)
+//@   ensures same: INDOMAIN ==> ok && res.hours == h.hours && res.minutes == h.minutes
+//@   ensures reject: ok ==> 0 <= res.hours && res.hours <= 24 && 0 <= res.minutes && res.minutes <= 59
+
+//@ func lemmaRoundTripPIN
+//@   params p
+//@   returns (res, ok)
+//@   ensures same: p <= 999999 ==> ok && res == p
+
+//@ func lemmaRoundTripSerialNumber
+//@   params s
+//@   returns (res, ok)
+//@   ensures same: ok && res == s
+
+//@ func lemmaRoundTripVersion
+//@   params v
+//@   returns (res, ok)
+//@   ensures same: ok && res == v
